@@ -286,6 +286,16 @@ def run(chk):
         for name in ("L", "comb"):
             verts, faces = B2.extruded(corpus.polygons_2d()[name])
             shapes.append((f"extruded:{name}", cox.shapes.Polyhedron(verts, faces)))
+        # general Polyhedron with faces of 5 / 6 vertices over the property's range of magnitudes (STL triangulates them)
+        from bounded import oracle
+        for name in ("prism6", "irregular_prism5"):
+            fc = [list(f) for f in oracle.hull_facets(named[name])]
+            for scale, off in ((1e-6, (1e-6, -2e-6, 3e-6)), (1e-4, (0.0, 0.0, 0.0)), (1e6, (-3e6, 5e5, 1.5e6))):
+                pts = [[(c_ * scale) + o for c_, o in zip(p, off)] for p in named[name]]
+                try:
+                    shapes.append((f"polyhedron:{name}/x{scale:g}", cox.shapes.Polyhedron(pts, fc)))
+                except Exception as e:  # noqa: BLE001
+                    fails.append((f"polyhedron:{name}/x{scale:g}", {"format": "STL", "problem": f"construction failed: {type(e).__name__}: {e}"[:200]}))
         for tag, shape in shapes:
             n_eval += check_shape(shape, tmp, fails, tag)
     seen = set()
